@@ -35,8 +35,9 @@ pub proof fn lemma_update_same_range(v: Seq<Col>, w: Seq<Col>, k: int, column: i
     }
 }
 
-pub open spec fn split_mids(c: Col, column: int, pre: Col, mid: Col, post: Col) -> Seq<Col> {
-    (if column != c.min { seq![pre] } else { Seq::<Col>::empty() }).push(mid)
+pub open spec fn split_mids(c: Col, column: int, pre: Col, mid: Col, post: Col, with_mid: bool) -> Seq<Col> {
+    (if column != c.min { seq![pre] } else { Seq::<Col>::empty() })
+        + (if with_mid { seq![mid] } else { Seq::<Col>::empty() })
         + (if column != c.max { seq![post] } else { Seq::<Col>::empty() })
 }
 
@@ -73,100 +74,176 @@ pub proof fn lemma_insert_fresh(v: Seq<Col>, w: Seq<Col>, k: int, col: Col, colu
     }
 }
 
-pub open spec fn split_shape(v: Seq<Col>, w: Seq<Col>, k: int, column: int, pre: Col, mid: Col, post: Col) -> bool {
+pub open spec fn split_shape(v: Seq<Col>, w: Seq<Col>, k: int, column: int, pre: Col, mid: Col, post: Col, with_mid: bool) -> bool {
     let np = if column != v[k].min { 1int } else { 0int };
+    let nm = if with_mid { 1int } else { 0int };
     let nq = if column != v[k].max { 1int } else { 0int };
-    &&& w.len() == v.len() + np + nq
+    &&& w.len() == v.len() - 1 + np + nm + nq
     &&& forall|i: int| 0 <= i < k ==> #[trigger] w[i] == v[i]
-    &&& forall|i: int| k + np + nq < i < w.len() ==> #[trigger] w[i] == v[i - np - nq]
-    &&& w[k + np] == mid
+    &&& forall|i: int| k + np + nm + nq <= i < w.len() ==> #[trigger] w[i] == v[i + 1 - np - nm - nq]
+    &&& (nm == 1 ==> w[k + np] == mid)
     &&& (np == 1 ==> w[k] == pre)
-    &&& (nq == 1 ==> w[k + np + 1] == post)
+    &&& (nq == 1 ==> w[k + np + nm] == post)
 }
 
-pub proof fn lemma_split_shape(v: Seq<Col>, w: Seq<Col>, k: int, column: int, pre: Col, mid: Col, post: Col)
+pub proof fn lemma_split_shape(v: Seq<Col>, w: Seq<Col>, k: int, column: int, pre: Col, mid: Col, post: Col, with_mid: bool)
     requires
         0 <= k < v.len(),
-        w =~= v.subrange(0, k) + split_mids(v[k], column, pre, mid, post) + v.subrange(k + 1, v.len() as int),
-    ensures split_shape(v, w, k, column, pre, mid, post)
+        w =~= v.subrange(0, k) + split_mids(v[k], column, pre, mid, post, with_mid) + v.subrange(k + 1, v.len() as int),
+    ensures split_shape(v, w, k, column, pre, mid, post, with_mid)
 {
-    let m = split_mids(v[k], column, pre, mid, post);
+    let m = split_mids(v[k], column, pre, mid, post, with_mid);
     let np = if column != v[k].min { 1int } else { 0int };
+    let nm = if with_mid { 1int } else { 0int };
     let nq = if column != v[k].max { 1int } else { 0int };
-    assert(m.len() == np + 1 + nq);
-    assert forall|i: int| k + np + nq < i < w.len() implies #[trigger] w[i] == v[i - np - nq] by {
+    assert(m.len() == np + nm + nq);
+    assert forall|i: int| k + np + nm + nq <= i < w.len() implies #[trigger] w[i] == v[i + 1 - np - nm - nq] by {
         assert(w[i] == v.subrange(k + 1, v.len() as int)[i - k - m.len()]);
     }
 }
 
-pub proof fn lemma_split_wf(v: Seq<Col>, w: Seq<Col>, k: int, column: int, pre: Col, mid: Col, post: Col)
+pub proof fn lemma_split_wf(v: Seq<Col>, w: Seq<Col>, k: int, column: int, pre: Col, mid: Col, post: Col, with_mid: bool)
     requires
         cols_wf(v), 0 <= k < v.len(), covers(v[k], column),
         pre.min == v[k].min && pre.max == column - 1,
         post.min == column + 1 && post.max == v[k].max,
         mid.min == column && mid.max == column,
-        split_shape(v, w, k, column, pre, mid, post),
+        split_shape(v, w, k, column, pre, mid, post, with_mid),
     ensures cols_wf(w)
 {
     let c = v[k];
     let np = if column != c.min { 1int } else { 0int };
+    let nm = if with_mid { 1int } else { 0int };
     let nq = if column != c.max { 1int } else { 0int };
+    let n = np + nm + nq;
     assert forall|i: int| 0 <= i < w.len() implies 1 <= (#[trigger] w[i]).min && w[i].min <= w[i].max && w[i].max <= 16384
-        && (i < k ==> w[i].max < c.min) && (i > k + np + nq ==> c.max < w[i].min) && (k <= i <= k + np + nq ==> c.min <= w[i].min && w[i].max <= c.max) by {
+        && (i < k ==> w[i].max < c.min) && (i >= k + n ==> c.max < w[i].min) && (k <= i < k + n ==> c.min <= w[i].min && w[i].max <= c.max)
+        && (k <= i < k + np ==> w[i].max < column) && (k + np <= i < k + np + nm ==> w[i].min == column && w[i].max == column)
+        && (k + np + nm <= i < k + n ==> column < w[i].min) by {
         if i < k { assert(w[i] == v[i]); assert(v[i].max < v[k].min); }
-        else if i > k + np + nq { assert(w[i] == v[i - np - nq]); assert(v[k].max < v[i - np - nq].min); }
-        else if i == k + np {} else if i == k {} else {}
+        else if i >= k + n { assert(w[i] == v[i + 1 - n]); assert(v[k].max < v[i + 1 - n].min); }
+        else {}
     }
     assert forall|i: int, j: int| 0 <= i < j < w.len() implies (#[trigger] w[i]).max < (#[trigger] w[j]).min by {
         if j < k { assert(w[i] == v[i] && w[j] == v[j]); assert(v[i].max < v[j].min); }
-        else if i > k + np + nq { assert(w[i] == v[i - np - nq] && w[j] == v[j - np - nq]); assert(v[i - np - nq].max < v[j - np - nq].min); }
-        else if i < k || j > k + np + nq {}
+        else if i >= k + n { assert(w[i] == v[i + 1 - n] && w[j] == v[j + 1 - n]); assert(v[i + 1 - n].max < v[j + 1 - n].min); }
         else {}
     }
 }
 
-pub proof fn lemma_split_view(v: Seq<Col>, w: Seq<Col>, k: int, column: int, pre: Col, mid: Col, post: Col)
+pub proof fn lemma_split_view(v: Seq<Col>, w: Seq<Col>, k: int, column: int, pre: Col, mid: Col, post: Col, with_mid: bool)
     requires
         cols_wf(v), 0 <= k < v.len(), covers(v[k], column),
         pre.min == v[k].min && pre.max == column - 1 && attrs(pre) == attrs(v[k]),
         post.min == column + 1 && post.max == v[k].max && attrs(post) == attrs(v[k]),
         mid.min == column && mid.max == column,
-        split_shape(v, w, k, column, pre, mid, post),
+        split_shape(v, w, k, column, pre, mid, post, with_mid),
     ensures same_view_except(v, w, column)
 {
     reveal(sub_view);
     let c = v[k];
     let np = if column != c.min { 1int } else { 0int };
+    let nm = if with_mid { 1int } else { 0int };
     let nq = if column != c.max { 1int } else { 0int };
+    let n = np + nm + nq;
     assert forall|i: int, x: int| 0 <= i < v.len() && x != column && #[trigger] covers(v[i], x)
         implies exists|j: int| 0 <= j < w.len() && #[trigger] covers(w[j], x) && attrs(w[j]) == attrs(v[i]) by {
         if i < k { assert(w[i] == v[i]); assert(covers(w[i], x)); }
-        else if i > k { assert(w[i + np + nq] == v[i]); assert(covers(w[i + np + nq], x)); }
+        else if i > k { assert(w[i - 1 + n] == v[i]); assert(covers(w[i - 1 + n], x)); }
         else if x < column { assert(np == 1); assert(covers(w[k], x)); }
-        else { assert(nq == 1); assert(covers(w[k + np + 1], x)); }
+        else { assert(nq == 1); assert(covers(w[k + np + nm], x)); }
     }
     assert forall|i: int, x: int| 0 <= i < w.len() && x != column && #[trigger] covers(w[i], x)
         implies exists|j: int| 0 <= j < v.len() && #[trigger] covers(v[j], x) && attrs(v[j]) == attrs(w[i]) by {
         if i < k { assert(w[i] == v[i]); assert(covers(v[i], x)); }
-        else if i > k + np + nq { assert(w[i] == v[i - np - nq]); assert(covers(v[i - np - nq], x)); }
-        else { assert(i != k + np); assert(covers(v[k], x)); }
+        else if i >= k + n { assert(w[i] == v[i + 1 - n]); assert(covers(v[i + 1 - n], x)); }
+        else { assert(!(nm == 1 && i == k + np)); assert(covers(v[k], x)); }
     }
 }
 
-pub proof fn lemma_split(v: Seq<Col>, w: Seq<Col>, k: int, column: int, pre: Col, mid: Col, post: Col)
+pub proof fn lemma_split(v: Seq<Col>, w: Seq<Col>, k: int, column: int, pre: Col, mid: Col, post: Col, with_mid: bool)
     requires
         cols_wf(v), 0 <= k < v.len(), covers(v[k], column),
         pre.min == v[k].min && pre.max == column - 1 && attrs(pre) == attrs(v[k]),
         post.min == column + 1 && post.max == v[k].max && attrs(post) == attrs(v[k]),
         mid.min == column && mid.max == column,
-        w =~= v.subrange(0, k) + split_mids(v[k], column, pre, mid, post) + v.subrange(k + 1, v.len() as int),
+        w =~= v.subrange(0, k) + split_mids(v[k], column, pre, mid, post, with_mid) + v.subrange(k + 1, v.len() as int),
     ensures
         cols_wf(w), same_view_except(v, w, column),
-        exists|j: int| 0 <= j < w.len() && covers(#[trigger] w[j], column) && w[j] == mid,
+        with_mid ==> exists|j: int| 0 <= j < w.len() && covers(#[trigger] w[j], column) && w[j] == mid,
+        !with_mid ==> forall|j: int| 0 <= j < w.len() ==> !covers(#[trigger] w[j], column),
 {
-    lemma_split_shape(v, w, k, column, pre, mid, post);
-    lemma_split_wf(v, w, k, column, pre, mid, post);
-    lemma_split_view(v, w, k, column, pre, mid, post);
-    let np = if column != v[k].min { 1int } else { 0int };
-    assert(covers(w[k + np], column));
+    lemma_split_shape(v, w, k, column, pre, mid, post, with_mid);
+    lemma_split_wf(v, w, k, column, pre, mid, post, with_mid);
+    lemma_split_view(v, w, k, column, pre, mid, post, with_mid);
+    let c = v[k];
+    let np = if column != c.min { 1int } else { 0int };
+    let nm = if with_mid { 1int } else { 0int };
+    let nq = if column != c.max { 1int } else { 0int };
+    let n = np + nm + nq;
+    if with_mid { assert(covers(w[k + np], column)); }
+    else {
+        assert forall|j: int| 0 <= j < w.len() implies !covers(#[trigger] w[j], column) by {
+            if j < k { assert(w[j] == v[j]); assert(v[j].max < v[k].min); }
+            else if j >= k + n { assert(w[j] == v[j + 1 - n]); assert(v[k].max < v[j + 1 - n].min); }
+            else {}
+        }
+    }
 }
+
+// ---- observable attributes of one column (first covering descriptor, as every getter reads them) ----
+pub open spec fn is_first_cover(v: Seq<Col>, x: int, i: int) -> bool {
+    0 <= i < v.len() && covers(v[i], x) && forall|k: int| 0 <= k < i ==> !covers(#[trigger] v[k], x)
+}
+pub open spec fn has_cover(v: Seq<Col>, x: int) -> bool { exists|i: int| is_first_cover(v, x, i) }
+pub open spec fn cover_idx(v: Seq<Col>, x: int) -> int { choose|i: int| is_first_cover(v, x, i) }
+pub open spec fn style_at(v: Seq<Col>, x: int) -> Option<i32> { if has_cover(v, x) { v[cover_idx(v, x)].style } else { None } }
+pub open spec fn hidden_at(v: Seq<Col>, x: int) -> bool { if has_cover(v, x) { v[cover_idx(v, x)].hidden } else { false } }
+/// a is (a possible result of computing) the actual pixel width of column x
+pub open spec fn actual_width_rel(v: Seq<Col>, x: int, a: f64) -> bool {
+    if has_cover(v, x) && v[cover_idx(v, x)].custom_width {
+        mul_ensures::<f64>(v[cover_idx(v, x)].width, constants::COLUMN_WIDTH_FACTOR, a)
+    } else { a == constants::DEFAULT_COLUMN_WIDTH }
+}
+/// column x of w stores pixel width a
+pub open spec fn stores_width(w: Seq<Col>, x: int, a: f64) -> bool {
+    has_cover(w, x) && div_ensures::<f64>(a, constants::COLUMN_WIDTH_FACTOR, w[cover_idx(w, x)].width)
+        && ne_ensures::<f64>(a, constants::DEFAULT_COLUMN_WIDTH, w[cover_idx(w, x)].custom_width)
+}
+
+pub proof fn lemma_first_cover_unique(v: Seq<Col>, x: int, i: int)
+    requires is_first_cover(v, x, i)
+    ensures has_cover(v, x), cover_idx(v, x) == i
+{
+    let j = cover_idx(v, x);
+    assert(is_first_cover(v, x, j));
+    if j < i { assert(!covers(v[j], x)); }
+    if i < j { assert(!covers(v[i], x)); }
+}
+pub proof fn lemma_no_cover(v: Seq<Col>, x: int)
+    requires forall|k: int| 0 <= k < v.len() ==> !covers(#[trigger] v[k], x)
+    ensures !has_cover(v, x)
+{}
+/// under well-formedness any covering descriptor is the first one
+pub proof fn lemma_wf_cover(v: Seq<Col>, x: int, i: int)
+    requires cols_wf(v), 0 <= i < v.len(), covers(v[i], x)
+    ensures is_first_cover(v, x, i), has_cover(v, x), cover_idx(v, x) == i
+{
+    assert forall|k: int| 0 <= k < i implies !covers(#[trigger] v[k], x) by { assert(v[k].max < v[i].min); }
+    lemma_first_cover_unique(v, x, i);
+}
+
+/// glue: after set_column_width_and_style the new covering descriptor is *the* first cover (by wf)
+pub proof fn lemma_after_set(v: Seq<Col>, w: Seq<Col>, column: int, ok: bool)
+    requires cols_wf(w)
+    ensures
+        forall|j: int| 0 <= j < w.len() && covers(#[trigger] w[j], column) ==> has_cover(w, column) && cover_idx(w, column) == j,
+{
+    assert forall|j: int| 0 <= j < w.len() && covers(#[trigger] w[j], column) implies has_cover(w, column) && cover_idx(w, column) == j by {
+        lemma_wf_cover(w, column, j);
+    }
+}
+
+pub proof fn lemma_same_view_refl(v: Seq<Col>, column: int)
+    ensures same_view_except(v, v, column)
+{ reveal(sub_view); }
